@@ -42,7 +42,15 @@ Kn == INSTANCE OVMKernel
 KindSeq  == <<"V", "HE", "M">>
 TypeSeq  == <<"int", "bool">>
 NameSeq  == <<"a", "b">>           \* the non-empty names of the universe
-MTypeSeq == <<"poly", "tet", "hex">>
+MTypeSeq == <<"poly", "tet", "hex", "tpoly", "ttet", "thex">>
+(* poly/tet/hex: GeometricPolyhedral/Tetrahedral/HexahedralMeshV3d; tpoly/ttet/thex: the       *)
+(* topology-only meshes TopologyKernel / TetrahedralMeshTopologyKernel /                         *)
+(* HexahedralMeshTopologyKernel (no position property; their defaulted operator= reaches        *)
+(* ResourceManager::operator= directly, also on self assignment)                                 *)
+Geometric(ty) == ty \in {"poly", "tet", "hex"}
+(* which assignments compile: the GeometryKernel template operator= between any two geometric   *)
+(* types, the defaulted operator= between two meshes of the same topology-only type             *)
+Assignable(dty, sty) == (Geometric(dty) /\ Geometric(sty)) \/ (~Geometric(dty) /\ dty = sty)
 Kinds3   == {"V", "HE", "M"}
 PosName  == "ovm:position"
 PosType  == "vec"
@@ -241,7 +249,7 @@ MakeProp(w, m) ==
 
 MeshNew(w, m, ty) ==
   LET w1 == [w EXCEPT !.mesh[m] = [alive |-> TRUE, ty |-> ty, kern |-> Kn!Empty, trk |-> {}, pers |-> {}, posh |-> 0]]
-  IN SetRet(MakeProp(w1, m), "ok")
+  IN SetRet(IF Geometric(ty) THEN MakeProp(w1, m) ELSE w1, "ok")
 
 (* clone_persistent_properties_from: clone(), set_tracker, insert           *)
 CloneOne(w, i, dst) ==
@@ -265,7 +273,7 @@ MeshCopy(w, dst, src) ==
       w2 == ClonePers(w1, src, dst)
       w3 == [w2 EXCEPT !.mesh[dst].kern = w.mesh[src].kern]
       w4 == MakeProp(w3, dst)
-  IN SetRet(CopyPositions(w4, dst, src), "ok")
+  IN SetRet(IF Geometric(w.mesh[src].ty) THEN CopyPositions(w4, dst, src) ELSE w3, "ok")
 
 (* assignment (any pair of mesh types).  Self assignment returns early;     *)
 (* otherwise ResourceManager::operator= anonymises the target's properties, *)
@@ -276,13 +284,14 @@ MeshCopy(w, dst, src) ==
 (* copy of *this is constructed and destroyed, without lasting effect       *)
 ReturnByValue(w, m) == w
 MeshAssign(w, dst, src) ==
-  IF dst = src THEN SetRet(ReturnByValue(w, dst), "ok")
+  IF dst = src THEN SetRet(ReturnByValue(w, dst), "ok")   \* both guards: GeometryKernel's and ResourceManager's
   ELSE LET w1 == Collect(ClearAllK(w, dst))
            w2 == ResizeTo(w1, dst, SizesOf(w.mesh[src].kern))
            w3 == ClonePers(w2, src, dst)
            w4 == [w3 EXCEPT !.mesh[dst].kern = w.mesh[src].kern]
-           w5 == MakeProp(w4, dst)
-       IN SetRet(ReturnByValue(CopyPositions(w5, dst, src), dst), "ok")
+       IN IF Geometric(w.mesh[dst].ty)
+          THEN SetRet(ReturnByValue(CopyPositions(MakeProp(w4, dst), dst, src), dst), "ok")
+          ELSE SetRet(w4, "ok")
 
 (* ~ResourceManager: the trackers go first (tracker_removed: every tracked  *)
 (* storage is detached, flags and data untouched), then the persistent set, *)
@@ -379,7 +388,8 @@ First(checks) ==   \* checks: sequence of <<name, bool>>; first failing name
 RefsLive(x) ==
   /\ \A h \in DOMAIN x.slot : x.slot[h] = 0 \/ x.slot[h] \in LiveC(x)
   /\ \A m \in AliveC(x) : x.mesh[m].trk \subseteq LiveC(x) /\ x.mesh[m].pers \subseteq LiveC(x)
-                          /\ x.mesh[m].posh \in LiveC(x)
+                          /\ (x.mesh[m].posh = 0 \/ x.mesh[m].posh \in LiveC(x))
+                          /\ (x.mesh[m].posh = 0) = ~Geometric(x.mesh[m].ty)
   /\ \A m \in DOMAIN x.mesh \ AliveC(x) : x.mesh[m].trk = {} /\ x.mesh[m].pers = {}
 PersImpliesShared(x)  == \A i \in LiveC(x) : x.sto[i].pers => x.sto[i].shared
 SharedImpliesNamed(x) == \A i \in LiveC(x) : x.sto[i].shared => x.sto[i].name # ""
@@ -422,7 +432,8 @@ HandleViews(x) ==
 TrackedSized(x) ==
   \A m \in AliveC(x) : \A i \in x.mesh[m].trk : Len(x.sto[i].vals) = x.mesh[m].n[x.sto[i].kind]
 PositionsAreTheProperty(x) ==
-  \A m \in AliveC(x) : x.mesh[m].posv = x.sto[x.mesh[m].posh].vals
+  \A m \in AliveC(x) : IF x.mesh[m].posh = 0 THEN x.mesh[m].posv = <<>>
+                        ELSE x.mesh[m].posv = x.sto[x.mesh[m].posh].vals
 
 InvC14(x) ==
   First(<< <<"RefsLive", RefsLive(x)>>,
@@ -570,9 +581,11 @@ RelMeshNew(p, q, m, ty, ret) ==
   /\ ret = "ok" /\ Frame(p, q, {m}, {}, {}, {})
   /\ q.mesh[m].alive /\ q.mesh[m].ty = ty /\ q.mesh[m].pers = {}
   /\ \A k \in {"V", "HE"} : q.mesh[m].n[k] = 0
-  /\ j \notin LiveC(p) /\ NewLive(p, q) = {j}
-  /\ q.sto[j] = [live |-> TRUE, kind |-> "V", type |-> PosType, name |-> PosName, shared |-> TRUE, pers |-> FALSE,
-                 trk |-> m, def |-> 0, vals |-> <<>>]
+  /\ IF Geometric(ty)
+     THEN /\ j \notin LiveC(p) /\ NewLive(p, q) = {j}
+          /\ q.sto[j] = [live |-> TRUE, kind |-> "V", type |-> PosType, name |-> PosName, shared |-> TRUE, pers |-> FALSE,
+                         trk |-> m, def |-> 0, vals |-> <<>>]
+     ELSE j = 0 /\ NewLive(p, q) = {}
 
 (* a handle that outlives its mesh keeps its data but reports being detached *)
 RelMeshDestroy(p, q, m, ret) ==
